@@ -122,13 +122,14 @@ PathCases(maxlen) ==
   \A p \in PathsUpTo(maxlen) : PrintT(<<"PV", ToJson([segs |-> p])>>)
 
 \* dependency kinds of a package.toml and what normalisation does to each
-DepKinds == {"libcnb-known", "libcnb-unknown", "relative", "absolute", "docker", "https", "urn"}
+\* libcnb-invalid: a libcnb: reference whose id is not a buildpack id at all (it cannot have a location either)
+DepKinds == {"libcnb-known", "libcnb-unknown", "libcnb-invalid", "relative", "absolute", "docker", "https", "urn"}
 DepLists(n) == UNION {[1..k -> DepKinds] : k \in 0..n}
 \* expected: "error" when any libcnb: id has no packaged location; otherwise per position
 NormKind(k) == CASE k = "libcnb-known" -> "packaged-path" [] k = "relative" -> "absolutised"
                  [] OTHER -> "verbatim"
 ExpectedDeps(ds) ==
-  IF \E i \in DOMAIN ds : ds[i] = "libcnb-unknown" THEN [ok |-> FALSE, out |-> <<>>]
+  IF \E i \in DOMAIN ds : ds[i] \in {"libcnb-unknown", "libcnb-invalid"} THEN [ok |-> FALSE, out |-> <<>>]
   ELSE [ok |-> TRUE, out |-> [i \in DOMAIN ds |-> NormKind(ds[i])]]
 DepCases(n) ==
   \A ds \in DepLists(n) :
